@@ -16,6 +16,7 @@ func init() {
 		ruleHybridRank(r, k)
 		// the modalities the hybrid search composes (anchors: fusion.go, flat / bm25 / metadata search)
 		ruleFusions(r, "C05")
+		ruleDocumentFilter(r, "C05.FILTER")
 		if fk, err := kindByName(r.W, "flat"); err == nil {
 			ruleScanADM(r, "C05.ADM.flat", fk, admSpec{DEL: true, SKIP: true, THR: true})
 			ruleResultOrder(r, "C05.ORD.flat", fk)
